@@ -5,10 +5,10 @@
 package chainsim
 
 import (
-	"strings"
 	"context"
 	"fmt"
 	"math/big"
+	"strings"
 
 	"github.com/btcsuite/btcd/btcec/v2"
 	"gitlab.com/aquachain/aquachain/aquadb"
